@@ -9,7 +9,7 @@ class Validation:
         seg = self.get("sid"+n).line
         seq = seg.sequence
         if not gfapy.is_placeholder(seq):
-          seqlen = len(seq)
+          seqlen = seg.slen
           for pfx in ["beg", "end"]:
             fn = pfx+n
             pos = self.get(fn)
